@@ -2,7 +2,8 @@
 # Prelude of the regenerated kernels (`M3d/Gen/Kernels.lean`)
 
 The only hand-written vocabulary that the Go→Lean translator (`harness/hlib/go2lean`) relies on:
-`math.Sqrt` as a class, `math.Abs/Min/Max` on non-NaN values and Go's `==` on floats.
+`math.Sqrt` as a class, `math.Abs/Min/Max` on non-NaN values, Go's `==` on floats, `math.Inf`/`IsNaN` as a class
+and the structural recursion `loopFrom` that loops with a run-time trip count are translated to.
 Core Lean only.
 -/
 namespace M3d.GenPrelude
@@ -37,6 +38,33 @@ class HasLibm (α : Type) where
 
 instance : HasLibm Float := ⟨Float.cos, Float.sin, Float.tan, Float.acos, Float.asin, Float.atan, Float.exp, Float.log,
   Float.pow, Float.atan2⟩
+
+/-- `math.Inf(±1)` and `math.IsNaN`.  At `Float` the IEEE values; in theorems over an ordered field two
+uninterpreted constants with the hypotheses a lemma needs stated explicitly (typically: `posInf` exceeds and
+`negInf` is below every value that occurs, `isNaN` is constantly `false`). -/
+class HasInf (α : Type) where
+  posInf : α
+  negInf : α
+  isNaN : α → Bool
+
+instance : HasInf Float := ⟨1.0 / 0.0, -1.0 / 0.0, Float.isNaN⟩
+
+/-- Outcome of one loop iteration: go on with the new values of the assigned variables, `break` with them,
+or `return r` from the enclosing function. -/
+inductive Loop (ρ σ : Type) where
+  | ret (r : ρ)
+  | brk (s : σ)
+  | next (s : σ)
+
+/-- A Go `for` loop over the elements `xs` (position `i` counted from the given start), threading the state
+`s`: `Sum.inl r` when the body returned `r`, `Sum.inr s'` when the loop ended (exhausted or `break`). -/
+def loopFrom {ρ σ ε : Type} (f : σ → Nat → ε → Loop ρ σ) : List ε → Nat → σ → Sum ρ σ
+  | [], _, s => Sum.inr s
+  | x :: xs, i, s =>
+    match f s i x with
+    | Loop.ret r => Sum.inl r
+    | Loop.brk s' => Sum.inr s'
+    | Loop.next s' => loopFrom f xs (i + 1) s'
 
 section
 variable {α : Type} [Sub α] [LT α] [DecidableLT α] [OfNat α 0]
